@@ -1,0 +1,56 @@
+//! Verification hooks. Compiled only with the `verif` cargo feature (off by default); nothing in
+//! this module changes tarpc's behaviour unless a test harness installs a callback.
+//!
+//! * [`yield_point`] lets a deterministic scheduler run other tasks between two statements of
+//!   otherwise synchronous code (what a second worker thread can do in production).
+//! * The `verif_in_flight` accessors on the client dispatch and the server channel expose the
+//!   lengths of the request tables and of the deadline-timer queues (read-only).
+
+use std::cell::RefCell;
+
+/// Places at which [`yield_point`] is called.
+#[derive(Clone, Copy, Debug, PartialEq, Eq, Hash)]
+pub enum Point {
+    /// On entry to the drop of the client's per-call response guard.
+    ClientGuardDropEntry,
+    /// In the client's response guard drop, after the receiver was closed and before the
+    /// cancellation is queued.
+    ClientGuardDropMid,
+    /// On exit from the drop of the client's response guard.
+    ClientGuardDropExit,
+}
+
+type Hook = Box<dyn FnMut(Point, u64)>;
+
+thread_local! {
+    static HOOK: RefCell<Option<Hook>> = const { RefCell::new(None) };
+}
+
+/// Installs (or, with `None`, removes) this thread's yield hook. Returns the previous one.
+pub fn set_yield_hook(hook: Option<Hook>) -> Option<Hook> {
+    HOOK.with(|h| std::mem::replace(&mut *h.borrow_mut(), hook))
+}
+
+/// Calls the installed hook, if any. The hook is taken out of its slot while it runs, so yield
+/// points reached from inside the hook are no-ops.
+pub fn yield_point(point: Point, request_id: u64) {
+    let taken = HOOK.with(|h| h.borrow_mut().take());
+    if let Some(mut hook) = taken {
+        hook(point, request_id);
+        HOOK.with(|h| {
+            let mut slot = h.borrow_mut();
+            if slot.is_none() {
+                *slot = Some(hook);
+            }
+        });
+    }
+}
+
+/// Lengths of a request table and of its deadline-timer queue.
+#[derive(Clone, Copy, Debug, PartialEq, Eq)]
+pub struct Lens {
+    /// Number of tracked requests.
+    pub entries: usize,
+    /// Number of pending deadline timers.
+    pub timers: usize,
+}
